@@ -10,7 +10,7 @@ is generated and proved by the reflexive checker Base/TrigMat.mcheck_eq_sound
 (invert, +, copy, on_qubits) are covered by the static theorems of
 Proofs/CircuitOps.v plus traced instances.
 """
-STATIC = ["Base/TrigMat"]
+STATIC = ["Base/TrigMat", "C05/Props"]
 import itertools
 import random
 
@@ -180,6 +180,45 @@ def recipes(spec, tier, rng):
     return n, out
 
 
+def circuit_instances():
+    """Coq terms for invert / + / copy / on_qubits of a circuit with symbolic parameters"""
+    from qibo import Circuit
+    gg = qtrace.mod("qibo.gates.gates")
+    th = qtrace.setup_vars(3)
+
+    def mk():
+        c = Circuit(3)
+        c.add(gg.CRX(2, 0, th[0]))
+        c.add(gg.U3(1, th[0], th[1], th[2]))
+        c.add(gg.fSim(0, 2, th[1], th[2]))
+        c.add(gg.RY(1, th[2]).controlled_by(2, 0))
+        c.add(gg.SX(0))
+        c.add(gg.T(2))
+        c.add(gg.RXX(1, 0, th[1]))
+        return c
+    out = []
+    c = mk()
+    inv = c.invert()
+    out.append(("circuit_invert", f"mcheck_eq {qtrace.circ_coq(list(c.queue) + list(inv.queue), 3)} (MId 3%nat)"))
+    c1, c2 = mk(), mk().invert()
+    s = c1 + c2
+    out.append(("circuit_add", f"mcheck_eq {qtrace.circ_coq(list(s.queue), 3)} "
+                f"(MMul {qtrace.circ_coq(list(c2.queue), 3)} {qtrace.circ_coq(list(c1.queue), 3)})"))
+    out.append(("circuit_copy_deep", f"mcheck_eq {qtrace.circ_coq(list(mk().copy(deep=True).queue), 3)} {qtrace.circ_coq(list(mk().queue), 3)}"))
+    big = Circuit(4)
+    big.add(mk().on_qubits(3, 0, 2))
+    ref = Circuit(4)
+    for g in mk().queue:
+        ref.add(g.on_qubits({0: 3, 1: 0, 2: 2}))
+    # expected: every gate acts on the mapped qubits -> build the reference from fresh gates on mapped qubits
+    exp = []
+    m = {0: 3, 1: 0, 2: 2}
+    exp.append(gg.CRX(m[2], m[0], th[0])); exp.append(gg.U3(m[1], th[0], th[1], th[2])); exp.append(gg.fSim(m[0], m[2], th[1], th[2]))
+    exp.append(gg.RY(m[1], th[2]).controlled_by(m[2], m[0])); exp.append(gg.SX(m[0])); exp.append(gg.T(m[2])); exp.append(gg.RXX(m[1], m[0], th[1]))
+    out.append(("circuit_on_qubits", f"mcheck_eq {qtrace.circ_coq(list(big.queue), 4)} {qtrace.circ_coq(exp, 4)}"))
+    return out
+
+
 def key_of(recipe):
     op, label, qubits, extra, qmap, update = recipe
     return f"{op}:{label}" + (":ctrl" if extra and op != "controlled_by" else "") + (":updated" if update else "")
@@ -211,6 +250,11 @@ def main(run):
         "meaning of 'operator of a gate': Base/Mat.v embed/cembed (qubit 0 most significant)",
     ]
     run.assumptions += ["exact real arithmetic (floating-point rounding not modelled)"]
+    from lib import vcore
+    for t in vcore.props_theorems("C05/Props.v"):
+        run.oblige(t, True, "static-theorem")
+    okpa, pa = vcore.static_assumptions("C05/Props")
+    run.notes["print_assumptions_static"] = pa
     specs = gate_specs()
     items = []      # (name, coq bool term)
     meta = {}       # name -> (spec, recipe, n)
@@ -239,6 +283,13 @@ def main(run):
                 run.case([rec[0], label, rec[2], rec[3], rec[5]])
                 run.sample({"obligation": name, "op": rec[0], "class": label, "qubits": rec[2],
                             "extra_controls": rec[3], "updated_after_construction": rec[5]})
+    # ---- circuit-level instances (invert, +, copy, on_qubits) on a mixed symbolic circuit
+    with qtrace.patched():
+        qtrace.fresh_sym_backend()
+        for nm, term in circuit_instances():
+            items.append((nm, term))
+            meta[nm] = None
+            run.case(["circuit-op", nm])
     # ---- translator cross-check (numeric): traced matrices vs real gate.matrix()
     tr_bad = crosscheck_tracer(run, rng)
     # ---- operations that raised on gates documented to accept them
@@ -269,6 +320,10 @@ def main(run):
         run.find("coq:C05_theorems", "theorem file does not compile", {"log": out2[-1500:]}, concrete=False)
     seen = set()
     for n_, _ in bad:
+        if meta[n_] is None:
+            run.oblige(n_, False)
+            run.find("circuit_op:" + n_, f"circuit-level obligation {n_} fails for the symbolic test circuit", {"obligation": n_}, concrete=False)
+            continue
         spec, rec, n = meta[n_]
         k = key_of(rec)
         if k in seen:
